@@ -154,9 +154,24 @@ func (vc *VC) Solve(cfg SolverCfg, stats *SolveStats, sem chan struct{}) {
 					o.Status, o.Solver, o.Secs = "proved", "z3-new", secs
 					stats.add("z3-new", secs)
 				case (a == "unknown" || a == "timeout") && o.Cover:
-					// reachability could not be established because of quantifiers;
-					// not a failure (only an unsat cover is)
+					// reachability could not be established because of quantifiers:
+					// retry without the quantified assertions (a weaker guard, but a
+					// contradiction among the quantifier-free facts is still caught)
 					o.Status, o.Solver, o.Secs = "cover-unknown", "z3-new", secs
+					qfBody := stripQuantified(body)
+					file2 := file + ".qf.smt2"
+					os.WriteFile(file2, []byte(qfBody+oblQuery(o)+"\n(check-sat)\n"), 0o644)
+					sem <- struct{}{}
+					out2, secs2 := runSolver(context.Background(), solvers[0], cfg.BatchMs, file2, cfg.BatchMs+5000)
+					<-sem
+					os.Remove(file2)
+					switch firstAnswer(out2) {
+					case "sat":
+						o.Status, o.Secs = "proved", secs+secs2
+						o.Out = "reachable (quantified assumptions ignored)"
+					case "unsat":
+						o.Status, o.Secs = "refuted", secs+secs2
+					}
 				}
 			}()
 		}
@@ -296,4 +311,17 @@ func (vc *VC) confirm(o *Obl, body, base string, cfg SolverCfg, stats *SolveStat
 	default:
 		o.Out = "unconfirmed by " + other.name
 	}
+}
+
+// stripQuantified drops assertions that contain quantifiers.
+func stripQuantified(body string) string {
+	var b strings.Builder
+	for _, l := range strings.Split(body, "\n") {
+		if strings.HasPrefix(l, "(assert ") && (strings.Contains(l, "(forall ") || strings.Contains(l, "(exists ")) {
+			continue
+		}
+		b.WriteString(l)
+		b.WriteByte('\n')
+	}
+	return b.String()
 }
